@@ -285,24 +285,38 @@ def alpha_zoned_date_time():
     def z(cal, y, m, d, n, o, zid, label, build):
         return E((cal.id, y, m, d, n, o, zid), None, None, label, build)
     amb = LocalDateTime(2023, 10, 29, 1, 30)
-    return [
+    out = [
         z(ISO, 2024, 1, 15, 12 * H, 0, "Europe/London", "jan.in_zone(London)", lambda: jan.in_zone(london)),
         z(ISO, 2024, 1, 15, 12 * H, 0, "Europe/London", "ZonedDateTime(local, London, +0)",
           lambda: ZonedDateTime(local_date_time=LocalDateTime(2024, 1, 15, 12, 0), zone=london, offset=Offset.zero)),
-        z(ISO, 2024, 1, 15, 12 * H, 0, "UTC", "jan.in_utc()", lambda: jan.in_utc()),
-        z(ISO, 2024, 1, 15, 12 * H, 0, "UTC", "ZonedDateTime(jan, utc)", lambda: ZonedDateTime(instant=jan, zone=utc)),
+        z(ISO, 2024, 1, 15, 12 * H, 0, "UTC|UTC", "jan.in_utc()", lambda: jan.in_utc()),
+        z(ISO, 2024, 1, 15, 12 * H, 0, "UTC|UTC", "ZonedDateTime(jan, utc)", lambda: ZonedDateTime(instant=jan, zone=utc)),
         z(GREG, 2024, 1, 15, 12 * H, 0, "Europe/London", "jan.in_zone(London, Gregorian)", lambda: jan.in_zone(london, GREG)),
         z(ISO, 2023, 10, 29, H + H // 2, 3600, "Europe/London", "ambiguous 01:30 +1", lambda: ZonedDateTime(local_date_time=amb, zone=london, offset=off(3600))),
         z(ISO, 2023, 10, 29, H + H // 2, 0, "Europe/London", "ambiguous 01:30 +0", lambda: ZonedDateTime(local_date_time=amb, zone=london, offset=Offset.zero)),
         z(ISO, 2024, 7, 15, 13 * H, 3600, "Europe/London", "jul.in_zone(London)", lambda: jul.in_zone(london)),
-        z(ISO, 2024, 7, 15, 13 * H, 3600, "UTC+01", "jul.with_offset(+1).in_fixed_zone()", lambda: jul.with_offset(off(3600)).in_fixed_zone()),
-        z(ISO, 2024, 7, 15, 13 * H, 3600, "UTC+01", "jul.in_zone(for_offset(+1))", lambda: jul.in_zone(DateTimeZone.for_offset(off(3600)))),
-        z(ISO, 2024, 7, 15, 13 * H, 3600, "Etc/GMT-1", "jul.in_zone(Etc/GMT-1)", lambda: jul.in_zone(gmt1)),
-        z(ISO, 2024, 7, 15, 12 * H + 10**9, 1, "UTC+00:00:01", "jul.in_zone(for_offset(+1s)) #1", lambda: jul.in_zone(DateTimeZone.for_offset(off(1)))),
-        z(ISO, 2024, 7, 15, 12 * H + 10**9, 1, "UTC+00:00:01", "jul.in_zone(for_offset(+1s)) #2", lambda: jul.in_zone(DateTimeZone.for_offset(off(1)))),
+        z(ISO, 2024, 7, 15, 13 * H, 3600, "UTC+01|UTC+01", "jul.with_offset(+1).in_fixed_zone()", lambda: jul.with_offset(off(3600)).in_fixed_zone()),
+        z(ISO, 2024, 7, 15, 13 * H, 3600, "UTC+01|UTC+01", "jul.in_zone(for_offset(+1))", lambda: jul.in_zone(DateTimeZone.for_offset(off(3600)))),
+        z(ISO, 2024, 7, 15, 13 * H, 3600, "Etc/GMT-1|+01", "jul.in_zone(Etc/GMT-1)", lambda: jul.in_zone(gmt1)),
+        z(ISO, 2024, 7, 15, 12 * H + 10**9, 1, "UTC+00:00:01|UTC+00:00:01", "jul.in_zone(for_offset(+1s)) #1", lambda: jul.in_zone(DateTimeZone.for_offset(off(1)))),
+        z(ISO, 2024, 7, 15, 12 * H + 10**9, 1, "UTC+00:00:01|UTC+00:00:01", "jul.in_zone(for_offset(+1s)) #2", lambda: jul.in_zone(DateTimeZone.for_offset(off(1)))),
         z(JUL, 2024, 7, 2, 13 * H, 3600, "Europe/London", "jul.in_zone(London, Julian)", lambda: jul.in_zone(london, JUL)),
         z(ISO, 2024, 7, 15, 13 * H + 1, 3600, "Europe/London", "jul+1ns in London", lambda: jul.plus_nanoseconds(1).in_zone(london)),
     ]
+    # the same instant in fixed zones that share offset and name but not the id (and the other way round)
+    for zid, name in (("UTC", "UTC"), ("Etc/UTC", "UTC"), ("UCT", "UTC"), ("Etc/GMT", "GMT"), ("GMT", "GMT")):
+        out.append(z(ISO, 2024, 1, 15, 12 * H, 0, "%s|%s" % (zid, name), "jan.in_zone(tzdb[%r])" % zid, lambda zid=zid: jan.in_zone(tz[zid])))
+    out.append(z(ISO, 2024, 1, 15, 12 * H, 0, "Etc/UTC|UTC", "ZonedDateTime(jan, tzdb['Etc/UTC'])", lambda: ZonedDateTime(instant=jan, zone=tz["Etc/UTC"])))
+    try:
+        from pyoda_time.time_zones._fixed_date_time_zone import _FixedDateTimeZone
+        _FixedDateTimeZone(off(3600), "Foo", "Bar")
+        out.append(z(ISO, 2024, 7, 15, 13 * H, 3600, "Foo|UTC+01", "jul.in_zone(_FixedDateTimeZone(+1h,'Foo','UTC+01'))",
+                     lambda: jul.in_zone(_FixedDateTimeZone(off(3600), "Foo", "UTC+01"))))
+        out.append(z(ISO, 2024, 7, 15, 13 * H, 3600, "UTC+01|Other name", "jul.in_zone(_FixedDateTimeZone(+1h,'UTC+01','Other name'))",
+                     lambda: jul.in_zone(_FixedDateTimeZone(off(3600), "UTC+01", "Other name"))))
+    except Exception:  # noqa: BLE001
+        pass
+    return out
 
 
 def alpha_interval():
@@ -390,24 +404,76 @@ def fixed_id(seconds):
     return "UTC" + ("+" if seconds > 0 else "-") + txt
 
 
+HARNESS_NOTES = []
+
+
+def stored_fixed_zones():
+    """[(id, offset seconds, name)] for every id of the bundled tz database that denotes a fixed zone, decoded from the
+    file bytes by the independent decoder vf/models/nzdref.py (aliases take offset and name of their canonical zone)."""
+    import os
+
+    import pyoda_time.time_zones as tzpkg
+
+    from vf.models import nzdref
+    path = os.path.join(os.path.dirname(tzpkg.__file__), "Tzdb.nzd")
+    with open(path, "rb") as fh:
+        f = nzdref.parse_file(fh.read())
+    cmap = nzdref.canonical_map(f)
+    out = []
+    for zid in nzdref.all_ids(f):
+        z = f["zones"][cmap[zid]]
+        if z["kind"] == "fixed":
+            out.append((zid, z["offset"], z["name"] if z["name"] is not None else zid))
+    return out
+
+
+def _stored_or_observed():
+    try:
+        return stored_fixed_zones()
+    except Exception as x:  # noqa: BLE001
+        HARNESS_NOTES.append("fixed zones of the tz database could not be decoded independently (%s: %s); a small observed list is used"
+                             % (type(x).__name__, str(x)[:80]))
+        return [("UTC", 0, "UTC"), ("Etc/UTC", 0, "UTC"), ("UCT", 0, "UTC"), ("Etc/GMT", 0, "GMT"), ("GMT", 0, "GMT"), ("Etc/GMT-1", 3600, "+01")]
+
+
 def alpha_fixed_zone():
-    def fz(o, label=None, build=None, id_=None, name=None):
-        i = id_ or fixed_id(o)
-        return E((i, o, name or i), None, None, label or "DateTimeZone.for_offset(%+ds)" % o, build or (lambda: DateTimeZone.for_offset(off(o))))
-    out = [
-        fz(0), fz(0, "DateTimeZone.utc", lambda: DateTimeZone.utc), fz(0, "tzdb['UTC']", lambda: DateTimeZoneProviders.tzdb["UTC"]),
-        fz(1), fz(1, "for_offset(+1s) again"), fz(-1), fz(3600), fz(3600, "for_offset(from_hours(1))", lambda: DateTimeZone.for_offset(Offset.from_hours(1))),
-        fz(-3600), fz(19800), fz(-19800), fz(64800), fz(-64800), fz(45901),
-    ]
+    """model key = (offset, id, name).  Sources: every fixed zone of the tzdb provider, DateTimeZone.utc, for_offset zones
+    (cached and uncached offsets, built twice), and directly constructed zones differing from for_offset(+1h) in exactly one
+    of offset / id / name."""
+    tz = DateTimeZoneProviders.tzdb
+
+    def fz(o, i, name, label, build):
+        return E((o, i, name), None, None, label, build)
+
+    def fo(o, label=None):
+        i = fixed_id(o)
+        return fz(o, i, i, label or "DateTimeZone.for_offset(%+ds)" % o, lambda: DateTimeZone.for_offset(off(o)))
+    out = [fz(0, "UTC", "UTC", "DateTimeZone.utc", lambda: DateTimeZone.utc)]
+    out += [fo(0), fo(1), fo(1, "for_offset(+1s) again"), fo(-1), fo(3600), fo(3600, "for_offset(+1h) again"), fo(-3600), fo(19800), fo(64800), fo(-64800), fo(45901)]
+    for zid, o, name in _stored_or_observed():
+        out.append(fz(o, zid, name, "tzdb[%r]" % zid, lambda zid=zid: tz[zid]))
     try:
         from pyoda_time.time_zones._fixed_date_time_zone import _FixedDateTimeZone
         _FixedDateTimeZone(off(3600), "Foo", "Bar")
-        out.append(fz(3600, "_FixedDateTimeZone(+1h, 'UTC+01', 'Other name')", lambda: _FixedDateTimeZone(off(3600), "UTC+01", "Other name"), "UTC+01", "Other name"))
-        out.append(fz(3600, "_FixedDateTimeZone(+1h, 'Foo')", lambda: _FixedDateTimeZone(off(3600), "Foo"), "Foo", "Foo"))
-        out.append(fz(3600, "_FixedDateTimeZone(+1h)", lambda: _FixedDateTimeZone(off(3600))))
+        out += [
+            fz(3600, "UTC+01", "UTC+01", "_FixedDateTimeZone(+1h, 'UTC+01', 'UTC+01')", lambda: _FixedDateTimeZone(off(3600), "UTC+01", "UTC+01")),
+            fz(7200, "UTC+01", "UTC+01", "_FixedDateTimeZone(+2h, 'UTC+01', 'UTC+01') [offset differs]", lambda: _FixedDateTimeZone(off(7200), "UTC+01", "UTC+01")),
+            fz(3600, "Foo", "UTC+01", "_FixedDateTimeZone(+1h, 'Foo', 'UTC+01') [id differs]", lambda: _FixedDateTimeZone(off(3600), "Foo", "UTC+01")),
+            fz(3600, "UTC+01", "Other name", "_FixedDateTimeZone(+1h, 'UTC+01', 'Other name') [name differs]", lambda: _FixedDateTimeZone(off(3600), "UTC+01", "Other name")),
+            fz(3600, "Foo", "Foo", "_FixedDateTimeZone(+1h, 'Foo')", lambda: _FixedDateTimeZone(off(3600), "Foo")),
+            fz(3600, "Foo", "Foo", "_FixedDateTimeZone(+1h, 'Foo', 'Foo')", lambda: _FixedDateTimeZone(off(3600), "Foo", "Foo")),
+            fz(3600, "UTC+01", "UTC+01", "_FixedDateTimeZone(+1h)", lambda: _FixedDateTimeZone(off(3600))),
+        ]
     except Exception:  # noqa: BLE001
-        pass
+        HARNESS_NOTES.append("_FixedDateTimeZone constructor not reachable; directly constructed fixed zones left out")
     return out
+
+
+def _zone_obs(zone):
+    """Zone component of a ZonedDateTime: id, and for fixed zones id|name (two fixed zones are the same zone only when offset,
+    id and name agree; the offset is already a component of the value)."""
+    n = getattr(zone, "name", None)
+    return zone.id if not isinstance(n, str) else "%s|%s" % (zone.id, n)
 
 
 def _ns_of(i):
@@ -433,7 +499,7 @@ TYPES = [
     TypeInfo("OffsetDateTime", OffsetDateTime, ("calendar", "year", "month", "day", "nanosecond_of_day", "offset"), alpha_offset_date_time,
              lambda v: _date_obs(v) + (v.nanosecond_of_day, v.offset.seconds)),
     TypeInfo("ZonedDateTime", ZonedDateTime, ("calendar", "year", "month", "day", "nanosecond_of_day", "offset", "zone"), alpha_zoned_date_time,
-             lambda v: _date_obs(v) + (v.time_of_day.nanosecond_of_day, v.offset.seconds, v.zone.id), has_equals=False),
+             lambda v: _date_obs(v) + (v.time_of_day.nanosecond_of_day, v.offset.seconds, _zone_obs(v.zone)), has_equals=False),
     TypeInfo("Interval", Interval, ("start", "end"), alpha_interval,
              lambda v: (_ns_of(v.start) if v.has_start else None, _ns_of(v.end) if v.has_end else None)),
     TypeInfo("DateInterval", DateInterval, ("calendar", "start_year", "start_month", "start_day", "end_year", "end_month", "end_day"), alpha_date_interval,
@@ -441,7 +507,7 @@ TYPES = [
     TypeInfo("Period", Period, PERIOD_FIELDS, alpha_period, lambda v: tuple(getattr(v, f) for f in PERIOD_FIELDS)),
     TypeInfo("ZoneInterval", ZoneInterval, ("name", "start", "end", "wall_offset", "savings"), alpha_zone_interval,
              lambda v: (v.name, _ns_of(v.start) if v.has_start else None, _ns_of(v.end) if v.has_end else None, v.wall_offset.seconds, v.savings.seconds)),
-    TypeInfo("FixedZone", None, ("id", "offset", "name"), alpha_fixed_zone, lambda v: (v.id, v.offset.seconds, v.name)),
+    TypeInfo("FixedZone", None, ("offset", "id", "name"), alpha_fixed_zone, lambda v: (v.offset.seconds, v.id, v.name)),
 ]
 TYPE_BY_NAME = {t.name: t for t in TYPES}
 
@@ -1303,6 +1369,8 @@ def run(ctx):
         "compare_to(None) may answer 'greater' (documented .NET convention) or refuse; any exception type counts as refusal",
         "immutability: explicit calls of __init__/__new__/__setattr__ and name-mangled private attributes are outside 'public calls'",
     ]
+    for msg in HARNESS_NOTES:
+        ctx.degrade(msg)
     if not only or "algebra" in only:
         for acc in pmap(algebra_worker, _rot([t.name for t in TYPES], seed), ctx.procs):
             ctx.merge_part("algebra", acc)
